@@ -50,6 +50,8 @@ def run(copy, vdir, seed, allprops):
         if n:
             meta["summary"] = n["summary"]
             meta["needs_to_manifest"] = n["needs"]
+            if n.get("history"):
+                meta["status_note"] = n["history"]
         json.dump(meta, open(os.path.join(d, "meta.json"), "w"), indent=1, ensure_ascii=False)
         return seed, ("caught by " + ", ".join(f"{p}:{'/'.join(r.split('.')[1] for r in fired[p])}" for p in caught)) if caught else "MISSED"
     finally:
